@@ -17,9 +17,11 @@
 (*                                      other did not                      *)
 (*   [e |-> "Result", fields]          record of booleans, one per compared *)
 (*                                      field of the two results           *)
-(* Lock-step may be lost only after a Deviation or Roundoff event (never   *)
-(* in exact mode); result fields must agree unless lock-step was lost      *)
-(* legitimately.                                                           *)
+(* Lock-step may be lost only AT a Deviation event (the excuse lapses as   *)
+(* soon as the two runs agree again on an evaluation: a deviation that was *)
+(* triggered but changed nothing excuses nothing later) or once the        *)
+(* round-off regime is reached (sticky) - never in exact mode; result      *)
+(* fields must agree unless lock-step was lost legitimately.               *)
 (***************************************************************************)
 EXTENDS Integers, Sequences, FiniteSets, TLC, Json, IOUtils
 
@@ -31,23 +33,26 @@ Ev == Tr[l]
 Flag(name, ok) == IF ok THEN {} ELSE {prop \o "_" \o name}
 
 Init == /\ tid \in 1..Len(Traces) /\ l = 1 /\ exact = TRUE /\ prop = "C00"
-        /\ excused = FALSE /\ lost = FALSE /\ steps = 0 /\ viol = {}
+        /\ excused = 0 /\ lost = FALSE /\ steps = 0 /\ viol = {}
 Mode == /\ l <= Len(Tr) /\ Ev.e = "Mode" /\ exact' = Ev.exact /\ prop' = Ev.prop /\ l' = l + 1
         /\ UNCHANGED <<tid, excused, lost, steps, viol>>
+\* excused: 0 = no, 1 = a deviation was just triggered (lapses on the next agreeing evaluation), 2 = round-off regime
 Step == /\ l <= Len(Tr) /\ Ev.e = "Step"
         /\ steps' = steps + 1
         /\ lost' = (lost \/ ~Ev.same)
-        /\ viol' = viol \cup Flag("Lockstep", Ev.same \/ lost \/ (excused /\ ~exact))
-        /\ l' = l + 1 /\ UNCHANGED <<tid, exact, prop, excused>>
+        /\ viol' = viol \cup Flag("Lockstep", Ev.same \/ lost \/ (excused > 0 /\ ~exact))
+        /\ excused' = IF Ev.same /\ excused = 1 /\ ~lost THEN 0 ELSE excused
+        /\ l' = l + 1 /\ UNCHANGED <<tid, exact, prop>>
 Excuse == /\ l <= Len(Tr) /\ Ev.e \in {"Deviation", "Roundoff"}
-          /\ excused' = TRUE /\ l' = l + 1
+          /\ excused' = IF Ev.e = "Roundoff" THEN 2 ELSE (IF excused = 2 THEN 2 ELSE 1)
+          /\ l' = l + 1
           /\ UNCHANGED <<tid, exact, prop, lost, steps, viol>>
 Extra == /\ l <= Len(Tr) /\ Ev.e = "Extra"
          /\ lost' = TRUE
-         /\ viol' = viol \cup Flag("SameNumberOfEvaluations", lost \/ (excused /\ ~exact))
+         /\ viol' = viol \cup Flag("SameNumberOfEvaluations", lost \/ (excused > 0 /\ ~exact))
          /\ l' = l + 1 /\ UNCHANGED <<tid, exact, prop, excused, steps>>
 Result == /\ l <= Len(Tr) /\ Ev.e = "Result"
-          /\ viol' = viol \cup UNION { Flag("Result_" \o f, Ev.fields[f] \/ (lost /\ excused /\ ~exact)) : f \in DOMAIN Ev.fields }
+          /\ viol' = viol \cup UNION { Flag("Result_" \o f, Ev.fields[f] \/ (lost /\ excused > 0 /\ ~exact)) : f \in DOMAIN Ev.fields }
           /\ l' = l + 1 /\ UNCHANGED <<tid, exact, prop, excused, lost, steps>>
 Finish == /\ l = Len(Tr) + 1 /\ l' = l + 1 /\ PrintT(<<"ACC", tid, viol>>)
           /\ UNCHANGED <<tid, exact, prop, excused, lost, steps, viol>>
